@@ -24,6 +24,7 @@ import QV.Proofs.WriterHeader
 import QV.Proofs.WriterShapeRun
 import QV.Proofs.WriterContentDecode
 import QV.Proofs.WriterMsgRefine
+import QV.Proofs.WriterJustified
 
 namespace QV.C12
 open QV QV.Writer QV.ServerSafety
@@ -482,6 +483,31 @@ theorem C12_refinement_all_modes_dns_limits (macFn : Tsig → List UInt8 → Lis
   obtain ⟨m, mac, hf, hrest⟩ := refines_all_modes macFn hmac buf limit s0 hnew mode ops ht hr ex hex
   have hsz := session_size_le macFn buf limit s0 hnew hlim mode ops hr hv m mac hf
   exact ⟨m, mac, hf, hsz, hrest hsz⟩
+
+/-! ### every failure is one the specification accepts
+
+  `checkSession` accepts a failed call only if `justified s op "err:Kind"` holds in the abstract state
+  `s` of the calls that succeeded so far. `C12_failures_justified`: whenever a public call fails with
+  `Kind` in a valid writer state, `justified` holds in every abstract state that describes that
+  writer state (`AbsNum`: same section, counts, EDNS / TSIG configuration, limit, buffer length,
+  `cur` = cursor and `reserved` = `limit − available`). Kind by kind: `Truncation` only if the
+  *uncompressed* encoding of what the call adds does not fit (for `set_edns` / `set_tsig`: the
+  reservation; for the templates: the new buffer is shorter than message + reservations);
+  `CountOverflow` only if the section count would exceed 65535; `OutOfOrder` only for a section
+  already closed; `InvalidRdata` only for RDATA the specification itself cannot read along the RFC
+  layout (`C12_spec_readable_rdata_is_accepted`); `AlreadyEdns`, `AlreadyTsig`, `NotEdns`,
+  `ExtendedRcodeOverflow`, `NotTsig`, `NotSignedTsig` exactly under their conditions; every other
+  call never fails. -/
+theorem C12_failures_justified (ss : Session) (op : Op) (a : Spec.Message.AState) (hI : I ss.w)
+    (hop : OpOK ss op) (hA : AbsNum ss.w a) (e : WriterErr) (he : (step ss op).1 = .err e) :
+    Spec.Message.justified a (Driver.toSpecOp op) (Driver.statusStr (.err e)) = true :=
+  step_justified ss op a hI hop hA e he
+
+/-- RDATA the specification can read (`givenRdata`) is RDATA `add_*_rr` accepts: the writer reports
+    `InvalidRdata` only for RDATA that is malformed for its type also by the specification's reading -/
+theorem C12_spec_readable_rdata_is_accepted (cls ty : Nat) (rd : List UInt8)
+    (h : (Spec.Message.givenRdata ty cls rd).isSome = true) : rdataOK cls ty rd = true :=
+  rdataOK_of_given cls ty rd h
 
 /-! non-vacuity: a `CasePreserving` session that respects the contract, whose calls all succeed, and
     that emits two pointers (owner = QNAME; the CNAME target shares a suffix with it) — all
